@@ -98,6 +98,13 @@ theorem head_form_after_translate (a ctx p head : Rich) (n : Nat)
     · simp only [h1, if_false, evalArgs, evalArgsGo]
       cases m <;> simp [truthy, atomValue] <;> exact h3 head ctx p n
 
+/-- a refused operator atom is reported as "unknown operator", never as "timeout". -/
+theorem translateBytes_ne_timeout (pm : PrimMap) (v : Bytes) : translateBytes pm v ≠ .error .timeout := by
+  unfold translateBytes
+  split
+  · split <;> simp
+  · simp
+
 /-- the UNLIMITED run that `translate_head` starts on a `Cons(_, _, Nil)` head always ends:
     with any step limit of at least 4 and a recursion depth above the nesting of the head it
     never answers "timeout" (so by fuel monotonicity the unlimited run gives that answer). -/
@@ -124,14 +131,24 @@ theorem headRunner_terminates (lim : Nat) (hl : 4 ≤ lim) (a : Rich) :
     | zero => exact absurd hd (Nat.not_lt_zero _)
     | succ d =>
       simp only [headRunner, start]
-      exact head_form_after_translate _ m pm ops _ _ _ _ n rfl
+      cases hh : translateBytes pm v with
+      | error e =>
+        have : e ≠ .timeout := fun h => translateBytes_ne_timeout pm v (by rw [hh, h])
+        simp [runLoop, runStep, stepCons, translateHead, hh, this]
+      | ok head =>
+        exact head_form_after_translate _ m pm ops _ _ _ head n (by simp [translateHead, hh])
   | atom v =>
     intro d ctx hd
     cases d with
     | zero => exact absurd hd (Nat.not_lt_zero _)
     | succ d =>
       simp only [headRunner, start]
-      exact head_form_after_translate _ m pm ops _ _ _ _ n rfl
+      cases hh : translateBytes pm v with
+      | error e =>
+        have : e ≠ .timeout := fun h => translateBytes_ne_timeout pm v (by rw [hh, h])
+        simp [runLoop, runStep, stepCons, translateHead, hh, this]
+      | ok head =>
+        exact head_form_after_translate _ m pm ops _ _ _ head n (by simp [translateHead, hh])
   | cons x y ihx _ =>
     intro d ctx hd
     cases d with
